@@ -94,6 +94,11 @@ fn order_programs() -> Vec<(String, String, usize)> {
     v.push(("two undefined labels and start as data label".into(), "start: db 1\nx:\njmp alpha\njc beta\n".into(), 2));
     v.push(("undefined label and a later range error".into(), "start:\njmp alpha\nmov al, 300\n".into(), 1));
     v.push(("undefined labels inside procedures and macros".into(), "macro m(a) -> jmp a <-\ndef f {\njc beta\n}\nstart:\nm(alpha)\ncall f\nm(gamma)\n".into(), 3));
+    // one macro use that generates several jumps: their set entries share the position of the use
+    v.push(("two undefined labels from one macro use".into(), "macro br(a,b) -> jc a jmp b <-\nstart:\ninc ax\nbr(alpha, beta)\n".into(), 2));
+    v.push(("three undefined labels from one macro use".into(), "macro br3(a,b,c) -> jc a jz b jmp c <-\nstart:\nbr3(gamma, alpha, beta)\nprint reg\n".into(), 3));
+    v.push(("undefined labels from one macro use and a direct jump".into(), "macro br(a,b) -> jc a jmp b <-\nstart:\nbr(beta, alpha)\njmp gamma\n".into(), 3));
+    v.push(("nested macro uses generating undefined jumps".into(), "macro go(l) -> jmp l <-\nmacro two(x,y) -> go(x) go(y) <-\nstart:\ntwo(beta, alpha)\n".into(), 2));
     // valid programs with forward jumps only (the set is non-empty but nothing is undefined)
     v.push(("forward jumps, all defined".into(), "start:\njmp a\nb:\njmp c\na:\njmp b\nc:\nprint reg\n".into(), 3));
     v
